@@ -274,7 +274,8 @@ func (p *PacketOut) UnmarshalBinary(data []byte) error {
 
 	n += 6 // for pad
 
-	for n < (n + p.ActionsLen) {
+	end := n + p.ActionsLen
+	for n < end {
 		a, err := DecodeAction(data[n:])
 		if err != nil {
 			return err
@@ -283,7 +284,11 @@ func (p *PacketOut) UnmarshalBinary(data []byte) error {
 		n += a.Len()
 	}
 
-	err = p.Data.UnmarshalBinary(data[n:])
+	if n < p.Header.Length {
+		buf := new(util.Buffer)
+		err = buf.UnmarshalBinary(data[n:p.Header.Length])
+		p.Data = buf
+	}
 	return err
 }
 
